@@ -31,7 +31,8 @@ PNI = set(pathbase.NI) | {'extend', 'append', '_validate_index', 'map_nodes'}
 
 
 def _premerge_paths(repo, fi):
-    return tr.paths_of(repo, fi, no_inline=PNI, follow_exceptions=True)
+    # a subclass that delegates to its base (`super().ayns.on_premerge_impl(...)`) is followed into the base implementation
+    return tr.paths_of(repo, fi, no_inline=PNI - {'on_premerge_impl'}, follow_exceptions=True)
 
 
 def _fetch_events(p):
@@ -230,6 +231,9 @@ def r3(repo, run):
                         verdicts.add(('bad', '!extend does not silently become ConfigList(self) when the target is missing (KeyError) or cannot be extended'))
                     else:
                         verdicts.add(('ok', 'missing / non-extendable target: plain ConfigList(self)'))
+            if not missing_raises and p.status == 'return' and ret == 'ConfigList(self)' and not first and \
+                    any(x.kind == 'call' and x.attr == 'remove_node' and x.recv is not None and x.recv.text in ('into.ayns', 'into') for x in p.events):
+                verdicts.add(('bad', '!extend falls back to a plain ConfigList(self) on a path that has already detached the target from the accumulated tree: the older value is lost although nothing was extended [%s]' % tr.describe(p, 4)))
             if p.status == 'return' and not exts and not first and not missing and not (not missing_raises and [f for f in fetched if tr.fact(p, "hasattr(%s, 'extend')" % f, False)]):
                 verdicts.add(('bad', 'a path returns %s without growing the older list [%s]' % (ret[:40] if ret else None, tr.describe(p, 4))))
         if not n_ext:
@@ -333,6 +337,7 @@ def check(repo, run, tier):
     g = Guard()
     g(r1, repo, run)
     g(r2, repo, run)
+    g(pr.no_unpacked_list_paths, repo, run, 'C16.R2b')
     g(r3, repo, run)
     g(r4, repo, run)
     g(r5, repo, run)
